@@ -86,8 +86,9 @@ class ConvKind(Kind):
     rule = ('scared.<X>Attack(convergence_step=k).run(Container) 1-3 times under set_batch_size(bs): exhaustive small scope '
             '(quick: boundary block + seed-sampled triples of N<=30 x bs<=12 u {40} x step<=32 u {50} for CPA, every attack class on a smaller sub-grid; thorough: the '
             'full grid for CPA, a larger sub-grid for every class), random sequences of 1-3 runs with different batch sizes; step smaller / '
-            'equal / larger than bs, larger than N, not dividing N; compute_results() calls, column counts, marks compared with the state '
-            'machine in Coq; every column compared with a fresh attack on the prefix; non-trivial = at least two columns')
+            'equal / larger than bs, larger than N, not dividing N; check_fn (property level): points strictly increasing, a step apart except a final remainder, last point = total, '
+            'every column = fresh attack on the prefix, last column = final scores, results unchanged; corr_fn (correspondence level): '
+            'compute_results() calls, column positions/count, marks = the state machine; non-trivial = at least two columns')
 
     def __init__(self):
         self._prefix = {}
